@@ -120,12 +120,37 @@ def rule_lookup(S):
     snap_rule(S, f, 'R-LOOKUP')
 
 
+def perm_wrappers(facts):
+    """Functions whose body reads part of the permutation word of `this` (member permutation_) - e.g.
+    border_node::get_permutation_cnk: calling one on a shared node is a live, partial read of the word."""
+    if '_perm_wrappers' in facts.__dict__:
+        return facts.__dict__['_perm_wrappers']
+    direct = set()
+    for g in facts.functions.values():
+        if not g.blocks or g.qname.startswith(Y + 'permutation::'):
+            continue
+        for x in g.all_nodes():
+            if x['k'] in CALL_KINDS and (x.get('cq') or '').startswith(Y + 'permutation::') and \
+                    x.get('cn') not in ('get_body', 'permutation'):
+                r = g.strip(call_recv(g, x), casts=True) if call_recv(g, x) is not None else None
+                if r is not None and r['k'] == 'MemberExpr' and (r.get('name') == 'permutation_') and \
+                        root_var(g, r) == 'this':
+                    direct.add(g.fid)
+    facts.__dict__['_perm_wrappers'] = direct
+    return direct
+
+
 def snap_rule(S, f, rule):
-    """Inside loops of a reader, rank->index lookups use a local permutation snapshot."""
+    """A reader consumes the permutation word through ONE local snapshot: the only live read of the shared word is the
+    whole-word load (get_body) that initialises the snapshot; rank / count lookups go through the local copy; calls of
+    node accessors that read part of the live word (e.g. get_permutation_cnk) are live partial reads."""
+    facts = S.facts()
+    wraps = perm_wrappers(facts)
     bad = []
     n = 0
     for x in f.all_nodes():
-        if is_call(x, cq={Y + 'permutation::get_index_of_rank', Y + 'permutation::get_cnk'}):
+        if x['k'] in CALL_KINDS and (x.get('cq') or '').startswith(Y + 'permutation::') and \
+                x.get('cn') not in ('get_body', 'set_body', 'permutation'):
             n += 1
             rv = root_var(f, call_recv(f, x))
             r = f.strip(call_recv(f, x), casts=True)
@@ -133,11 +158,16 @@ def snap_rule(S, f, rule):
                 'permutation' in (r.get('ty') or '')
             if not local:
                 bad.append(x)
+        elif x['k'] in CALL_KINDS and x.get('callee') in wraps:
+            n += 1
+            bad.append(x)
     S.ob(rule, f.qname + ('<%s>' % f.targs if f.targs else ''), 'permutation snapshot (%d lookups)' % n,
          not bad and n > 0,
-         'every rank lookup uses the local snapshot' if (not bad and n > 0) else
-         ('a rank lookup reads the shared permutation word again instead of the snapshot' if bad else
-          'no rank lookups found'), loc=short_loc(bad[0]) if bad else f.loc)
+         'every rank / count lookup uses the local snapshot' if (not bad and n > 0) else
+         ('a rank / count lookup reads the shared permutation word again instead of the snapshot (%s): order and count '
+          'can come from two different words, e.g. around a remove, which no version check notices' %
+          ', '.join(sorted({(b.get('cn') or '?') for b in bad})) if bad else 'no rank lookups found'),
+         loc=short_loc(bad[0]) if bad else f.loc)
 
 
 def rule_wul(S):
